@@ -24,7 +24,16 @@ env.pop("ABTEM_VERIF", None)
 env["PYTHONPATH"] = repo
 cmd = ["/venv/bin/python", "-m", "pytest", "-q", "-p", "no:cacheprovider", "--timeout=900",
        "--continue-on-collection-errors", f"--junitxml={junit}"] + sys.argv[2:]
+import glob, shutil, time
+_t0 = time.time()
 p = subprocess.run(cmd, cwd=repo, env=env, stdout=subprocess.PIPE, stderr=subprocess.STDOUT, text=True)
+# the repository's test strategies leave abtem-test-<uuid>.zarr[.zip] files in the temp dir: remove the ones this run created
+for f in glob.glob(os.path.join(tempfile.gettempdir(), "abtem-test-*")):
+    try:
+        if os.path.getmtime(f) >= _t0 - 1:
+            shutil.rmtree(f) if os.path.isdir(f) else os.unlink(f)
+    except OSError:
+        pass
 passed = set()
 for tc in ET.parse(junit).getroot().iter("testcase"):
     if not any(c.tag in ("failure", "error", "skipped") for c in tc):
